@@ -8,18 +8,26 @@
    tables with duplicate keys, ...), joined by a line terminator (LF or CR LF), and then optionally
    corrupted: one token dropped, one token duplicated, or the token stream truncated after token k
    ("truncated files").  TLC enumerates all of them (or a hash-sampled subset) and prints them.
+   A second family ("err", WithErr = TRUE) takes one line from ErrLib -- one line per message template of
+   the syntax-error checker, of the numeral / string-literal analysers and of the lexer / parser / doc-parser
+   error paths: invalid escapes, unfinished strings and long brackets, malformed numerals, operators without
+   operands, stray brackets (several DIFFERENT errors at one range), broken statements and doc tags -- alone
+   (with every token drop / duplication / truncation) or next to a valid line.
 
    SpecJudge (validation of recorded results): the harness runs the real analysis + diagnose_file on every
    generated program under the default and the "all codes enabled" configuration and records, per run,
    the document's line table (UTF-16 length of every line, LSP line terminators), the diagnostics and the
    parser's error list (byte ranges converted to LSP positions by the glue with the same independent
-   rules).  TLC reads the records (IOEnv.RECS) and evaluates the well-formedness predicates of the
-   property on each; the verdict (set of failed predicates with witnesses) is printed per record.  *)
+   rules) together with the id of its message in the record's message table.  TLC reads the records
+   (IOEnv.RECS) and evaluates the well-formedness predicates of the property on each; the verdict (set of
+   failed predicates with witnesses) is printed per record.  Parse errors are related to diagnostics as
+   (range, message) pairs: two different errors at one range need two diagnostics.  *)
 EXTENDS Naturals, Sequences, FiniteSets, TLC, Json, IOUtils
 
 CONSTANTS MaxLines,    \* generator: number of library lines per program
           EmitMod,     \* generator: print programs whose hash is 0 mod EmitMod
-          Mode         \* "gen" | "judge"
+          Mode,        \* "gen" | "judge"
+          WithErr      \* generator: also the "err" family (ErrLib lines)
 
 VARIABLES prog,        \* generator: [lines : Seq(library index), nl : terminator, mut : <<kind, k>>]
           rec          \* judge: index of the record under judgement
@@ -46,12 +54,101 @@ Lib == <<
 >>
 NLib == Len(Lib)
 
+(* One line per error message template.  <q> <sq> <bs> stand for a double quote, a single quote and a backslash
+   (substituted by the glue), <e2> for a 2-byte character.  *)
+ErrLib == <<
+  \* string literals: the syntax-error checker's escape checks, the lexer's unfinished strings / long brackets
+  <<"local", "s", "=", "<q><bs>u{D800}<q>">>,
+  <<"local", "s", "=", "<sq><bs>u{110000}<sq>">>,
+  <<"local", "s", "=", "<q><e2><bs>u{DFFF}<e2><q>">>,
+  <<"local", "s", "=", "<q><bs>u{FFFFFFFFFF}<q>">>,
+  <<"local", "s", "=", "<q><bs>xZZ<q>">>,
+  <<"local", "s", "=", "<q><bs>x4<q>">>,
+  <<"local", "s", "=", "<q><bs>400<q>">>,
+  <<"local", "s", "=", "<q><bs>u{<q>">>,
+  <<"local", "s", "=", "<q><bs>q<q>">>,
+  <<"local", "s", "=", "<q>abc">>,
+  <<"local", "s", "=", "<sq>a<e2>c">>,
+  <<"local", "s", "=", "[[abc">>,
+  <<"local", "s", "=", "[==[abc]]">>,
+  <<"--[[", "abc">>,
+  \* numerals: lexer ("unexpected character after number literal") and int / float analysers
+  <<"local", "n", "=", "0x">>,
+  <<"local", "n", "=", "3x">>,
+  <<"local", "n", "=", "0xg">>,
+  <<"local", "n", "=", "0b12">>,
+  <<"local", "n", "=", "1..2">>,
+  <<"local", "n", "=", "1.2.3">>,
+  <<"local", "n", "=", "1e">>,
+  <<"local", "n", "=", "0x1p">>,
+  <<"local", "n", "=", "1_000">>,
+  <<"local", "n", "=", "99999999999999999999">>,
+  <<"local", "n", "=", "0xffffffffffffffffff">>,
+  \* expressions and statements: operators without operand, stray tokens (several errors at one range), recovery
+  <<"local", "a", "=", "-">>,
+  <<"local", "a", "=", "not">>,
+  <<"local", "a", "=", "1", "+">>,
+  <<"local", "a", "=", "1", "+", "*", "2">>,
+  <<"local", "t", "=", "{", "1", ",", ",", "}">>,
+  <<"local", "t", "=", "{", "1", ";", ";", "}">>,
+  <<"[">>,
+  <<"]">>,
+  <<"?">>,
+  <<"$">>,
+  <<"@">>,
+  <<"~">>,
+  <<"a", "?", "b">>,
+  <<"repeat">>,
+  <<"for", "x", "local", "y", "=", "1">>,
+  <<"x", "=", "}">>,
+  <<"a", ".", "=", "1">>,
+  <<"goto">>,
+  <<"::">>,
+  <<"::", "l">>,
+  <<"local", "function">>,
+  <<"function", "f", "(", "a", ",", ")", "end">>,
+  <<"f", "(", "1", ",", ")">>,
+  <<"return", "return">>,
+  <<"break">>,
+  <<"a", "=", "1", "~=">>,
+  \* doc comments: doc-parser error paths
+  <<"---@field", "1">>,
+  <<"---@field", "public">>,
+  <<"---@param", ",">>,
+  <<"---@param", "end">>,
+  <<"---@type", "fun(">>,
+  <<"---@type", "{">>,
+  <<"---@type", "string", "|">>,
+  <<"---@type", "A", "|", "|", "B">>,
+  <<"---@type", "keyof">>,
+  <<"---@type", "string[">>,
+  <<"---@type", "table<">>,
+  <<"---@class">>,
+  <<"---@class", "A", ":">>,
+  <<"---@class", "A<">>,
+  <<"---@cast", "x">>,
+  <<"---@see">>,
+  <<"---@version", ">">>,
+  <<"---@module">>,
+  <<"---@source">>,
+  <<"---@operator", "add(">>,
+  <<"---@diagnostic", "disable-next-line:">>
+>>
+NErr == Len(ErrLib)
+AllLib == Lib \o ErrLib
+
 RECURSIVE Flat(_)
-Flat(ls) == IF ls = <<>> THEN <<>> ELSE Lib[Head(ls)] \o <<"<NL>">> \o Flat(Tail(ls))
+Flat(ls) == IF ls = <<>> THEN <<>> ELSE AllLib[Head(ls)] \o <<"<NL>">> \o Flat(Tail(ls))
 NTok(ls) == Len(Flat(ls))
 
-LineSeqs == UNION {[1..n -> 1..NLib] : n \in 1..MaxLines}
-Muts(ls) == {<<"none", 0>>} \cup {<<m, k>> : m \in {"drop", "dup", "trunc"}, k \in 1..NTok(ls)}
+BaseSeqs == UNION {[1..n -> 1..NLib] : n \in 1..MaxLines}
+\* the "err" family: an ErrLib line alone, after the valid line `foo ( )`, before the valid line `local u = 1`
+ErrAlone == {<<NLib + e>> : e \in 1..NErr}
+ErrSeqs == IF WithErr THEN ErrAlone \cup {<<1, NLib + e>> : e \in 1..NErr} \cup {<<NLib + e, 2>> : e \in 1..NErr} ELSE {}
+LineSeqs == BaseSeqs \cup ErrSeqs
+Muts(ls) == IF ls \in BaseSeqs \/ ls \in ErrAlone
+            THEN {<<"none", 0>>} \cup {<<m, k>> : m \in {"drop", "dup", "trunc"}, k \in 1..NTok(ls)}
+            ELSE {<<"none", 0>>}
 
 InitGen == /\ rec = 0
            /\ \E ls \in LineSeqs : \E nl \in {"LF", "CRLF"} : \E m \in Muts(ls) :
@@ -73,8 +170,10 @@ SeqHash(s, i) == IF i > Len(s) THEN 0 ELSE (i + 2) * s[i] + SeqHash(s, i + 1)
 GenHash == SeqHash(prog.lines, 1) * 7 + prog.mut[2] * 3
            + (CASE prog.mut[1] = "none" -> 0 [] prog.mut[1] = "drop" -> 1 [] prog.mut[1] = "dup" -> 2 [] OTHER -> 3)
            + (IF prog.nl = "LF" THEN 0 ELSE 5)
-EmitGen == IF Mode = "gen" /\ GenHash % EmitMod = 0
-           THEN PrintT(<<"PROG", ToJson([toks |-> Tokens, nl |-> prog.nl, lines |-> prog.lines, mut |-> prog.mut])>>)
+IsErr == prog.lines \in ErrSeqs
+EmitGen == IF Mode = "gen" /\ (IsErr \/ GenHash % EmitMod = 0)
+           THEN PrintT(<<"PROG", ToJson([toks |-> Tokens, nl |-> prog.nl, lines |-> prog.lines, mut |-> prog.mut,
+                                         fam |-> IF IsErr THEN "err" ELSE "base"])>>)
            ELSE TRUE
 
 \* ---------------------------------------------------------------------------------------------
@@ -84,7 +183,8 @@ EmitGen == IF Mode = "gen" /\ GenHash % EmitMod = 0
              none : BOOLEAN                 diagnose_file returned None
              syn : BOOLEAN                  syntax-error / doc-syntax-error are enabled in this configuration
              diags : Seq(<<sl, sc, el, ec, code, hasSeverity, placeholder, msgid>>)
-             errs : Seq(<<sl, sc, el, ec>>) the parser's error list at LSP positions]  *)
+             errs : Seq(<<sl, sc, el, ec, msgid>>) the parser's error list at LSP positions; msgid refers to the
+                                            same message table as the diagnostics' msgid]  *)
 KnownCodes == {
   "syntax-error", "doc-syntax-error", "type-not-found", "missing-return", "param-type-mismatch", "missing-parameter",
   "redundant-parameter", "unreachable-code", "unused", "undefined-global", "deprecated", "access-invisible",
@@ -112,11 +212,11 @@ UnknownCode(r) == {i \in 1..Len(r.diags) : r.diags[i][5] \notin KnownCodes}
 NoSeverity(r) == {i \in 1..Len(r.diags) : r.diags[i][6] = 0}
 Placeholder(r) == {i \in 1..Len(r.diags) : r.diags[i][7] = 1}
 Duplicates(r) == {j \in 1..Len(r.diags) : \E i \in 1..(j - 1) : r.diags[i] = r.diags[j]}
-\* parse errors without a syntax-error diagnostic at the same range (only demanded when the codes are on)
+\* parse errors without a syntax-error diagnostic of their own (same range AND same message: different errors at one
+\* range need different diagnostics; identical errors are one error) -- only demanded when the codes are on
+Covers(d, e) == IsSyntax(d) /\ SubSeq(d, 1, 4) = SubSeq(e, 1, 4) /\ d[8] = e[5]
 Uncovered(r) == IF ~r.syn \/ r.none THEN {}
-                ELSE {k \in 1..Len(r.errs) :
-                        ~\E i \in 1..Len(r.diags) :
-                            IsSyntax(r.diags[i]) /\ SubSeq(r.diags[i], 1, 4) = r.errs[k]}
+                ELSE {k \in 1..Len(r.errs) : ~\E i \in 1..Len(r.diags) : Covers(r.diags[i], r.errs[k])}
 
 Verdict(r) == [id |-> r.id, range |-> BadRange(r), code |-> UnknownCode(r), severity |-> NoSeverity(r),
                placeholder |-> Placeholder(r), duplicate |-> Duplicates(r), uncovered |-> Uncovered(r)]
